@@ -167,6 +167,11 @@ def execute(mat, ctx):
             classes = [gen.class_by_name(mat["cls"])]
         elif kind == "generic":
             classes = list(gen.generic_classes(mat["enzyme"]))
+            # user-defined classes whose hand-written structure spells the same language with `+` instead of `*`
+            for base in list(classes):
+                pat = base.structure().replace("NN*", "N+")
+                if pat != base.structure():
+                    classes.append(type(str(base.__name__ + "Plus"), (base,), {"structure": staticmethod(lambda pat=pat: pat)}))
         else:
             classes = None
         for j in range(mat["count"]):
